@@ -315,6 +315,72 @@ func c01Pool(r *core.Run) {
 				}
 				r.Floor("C01.POOL", "fields of "+tn+" accounted for", nOK, 10)
 			}
+			// an instance is handed back at most once: a second Put makes two later callers share it
+			var releases []*ssa.Function
+			for _, fn := range p.Funcs {
+				core.InstrsOf(fn, func(in ssa.Instruction) {
+					if c := core.CallOf(in); c != nil && core.CalleeName(c) == "(*sync.Pool).Put" && c.Args[0] == ssa.Value(g) && fn.Parent() == nil {
+						releases = append(releases, fn)
+					}
+				})
+			}
+			isRelease := func(c *ssa.CallCommon) bool {
+				callee := core.StaticCallee(c)
+				for _, rf := range releases {
+					if callee == rf {
+						return true
+					}
+				}
+				return core.CalleeName(c) == "(*sync.Pool).Put" && len(c.Args) > 0 && c.Args[0] == ssa.Value(g)
+			}
+			nRel := 0
+			for _, fn := range p.Funcs {
+				if !p.IsProdFunc(fn) {
+					continue
+				}
+				isRel := false
+				for _, rf := range releases {
+					if rf == fn {
+						isRel = true
+					}
+				}
+				if isRel {
+					continue
+				}
+				type rel struct {
+					in       ssa.Instruction
+					what     string
+					deferred bool
+				}
+				var rels []rel
+				core.InstrsOf(fn, func(in ssa.Instruction) {
+					c := core.CallOf(in)
+					if c == nil || !isRelease(c) {
+						return
+					}
+					arg := c.Args[len(c.Args)-1]
+					_, isDefer := in.(*ssa.Defer)
+					rels = append(rels, rel{in, core.Canon(arg), isDefer})
+				})
+				for i, a := range rels {
+					nRel++
+					for j, b := range rels {
+						if i == j || a.what != b.what || b.deferred {
+							continue
+						}
+						// b is an immediate release of the same instance: a deferred release registered before it, or an
+						// earlier immediate one on the same path, releases it a second time
+						if a.deferred && (core.Precedes(a.in, b.in) || core.ReachAvoiding(a.in.Block(), nil)[b.in.Block()]) {
+							r.Fail("C01.POOL", core.FuncName(fn)+"#released-once("+a.what+")", b.in.Pos(), "the pooled instance "+a.what+" is released here and again by the deferred release registered at "+p.Pos(a.in.Pos())+": it enters the pool twice and two later callers share it (their canonical IR mixes)")
+						}
+						if !a.deferred && i < j && a.in.Block() != b.in.Block() && core.ReachAvoiding(a.in.Block(), nil)[b.in.Block()] {
+							r.Fail("C01.POOL", core.FuncName(fn)+"#released-once("+a.what+")", b.in.Pos(), "the pooled instance "+a.what+" is released twice on one path")
+						}
+					}
+					r.OK("C01.POOL", fmt.Sprintf("%s#release[%d](%s)", core.FuncName(fn), i, a.what), a.in.Pos(), "release site")
+				}
+			}
+			r.Floor("C01.POOL", "release sites of "+tn, nRel, 2)
 		}
 	}
 	r.Floor("C01.POOL", "sync.Pool-managed types", n, 1)
